@@ -81,6 +81,14 @@ class Distance(torch.nn.Module):
         return self._postprocess(res) if postprocess else res
 
 
+def _set_sub_module(module: Module, path: str, sub_module: Module) -> None:
+    # `path` is a name produced by named_modules(): dotted for the members of composite kernels ("kernels.0")
+    *parents, name = path.split(".")
+    for parent in parents:
+        module = getattr(module, parent)
+    setattr(module, name, sub_module)
+
+
 class Kernel(Module):
     r"""
     Kernels in GPyTorch are implemented as a :class:`gpytorch.Module` that, when called on two :class:`torch.Tensor`
@@ -406,7 +414,7 @@ class Kernel(Module):
 
         # Recurse, if necessary
         for sub_module_name, sub_module in self.named_sub_kernels():
-            new_kernel.__setattr__(sub_module_name, sub_module.expand_batch(new_batch_shape))
+            _set_sub_module(new_kernel, sub_module_name, sub_module.expand_batch(new_batch_shape))
 
         return new_kernel
 
@@ -599,7 +607,7 @@ class Kernel(Module):
             new_kernel.batch_shape = new_buffr.shape[:new_batch_shape_len]
 
         for sub_module_name, sub_module in self.named_sub_kernels():
-            new_kernel.__setattr__(sub_module_name, sub_module.__getitem__(index))
+            _set_sub_module(new_kernel, sub_module_name, sub_module.__getitem__(index))
 
         return new_kernel
 
